@@ -21,7 +21,7 @@ def main():
         "setup_cmd": "python3 tools/setup.py",
         "hooks": {
             "guard": "rjrssync_verif",
-            "enable": "RUSTFLAGS='--cfg rjrssync_verif' RJRSSYNC_VERIF_HARNESS=/verif/.cache/harness_gen cargo build --offline --target-dir /verif/.cache/target (harness sources live in /verif/harness; /repo only has add-only include/hook lines under the cfg)",
+            "enable": "RUSTFLAGS='--cfg rjrssync_verif' RJRSSYNC_VERIF_HARNESS=/verif/.cache/harness_gen cargo build --offline --target-dir /verif/.cache/target (harness sources live in /verif/harness; /repo only has add-only include/hook lines under the cfg; two later hook commits edit earlier HOOK lines - cfg-guarded ones - never a line of the original source)",
             "baseline_off_cmd": "cd /repo && cargo nextest run --workspace --no-fail-fast --test-threads 8 --offline || cargo test --workspace --no-fail-fast --offline",
             "source_commits": hooks[::-1],
             "add_only": True
